@@ -833,7 +833,7 @@ func (e *Env) callExpr(ex *ast.CallExpr, hint types.Type) Val {
 			if _, ok := a.T.Underlying().(*types.Slice); ok {
 				r = sRef(a.S)
 			}
-			return Val{T: boolT, S: sx(">", r, c.alloc(e.old))}
+			return Val{T: boolT, S: and(sx(">", r, c.alloc(e.old)), sx("<=", r, c.alloc(e.st)))}
 		}
 		// named predicate of the contract language
 		if pk := e.pkg(); pk != nil {
